@@ -43,17 +43,15 @@ theorem runOp_db_independent_of_mem (db : Db) (mem₁ mem₂ : Mem) (op : Op) (f
 
 
 /-- `fault_not_hit`: if the body, run with the fault plan `(k, kind)`, returns normally, then its final working state
-(working copy, statement counter, in-memory lists) is exactly the one of the fault-free run. -/
+(working copy, statement counter, in-memory lists) is exactly the one of the fault-free run.
+(Proof: `exec_fault_not_hit` in `PgVerif.Lemmas.Store` — the simulation `faultR` lifted through every operation.) -/
 theorem fault_not_hit (db : Db) (mem : Mem) (op : Op) (k : Nat) (kind : FaultKind)
     (h : (exec (prog op) ⟨db, mem, 0, some (k, kind)⟩).1 = .ok ()) :
     (exec (prog op) ⟨db, mem, 0, none⟩).1 = .ok () ∧
     (exec (prog op) ⟨db, mem, 0, some (k, kind)⟩).2.db = (exec (prog op) ⟨db, mem, 0, none⟩).2.db ∧
     (exec (prog op) ⟨db, mem, 0, some (k, kind)⟩).2.n = (exec (prog op) ⟨db, mem, 0, none⟩).2.n ∧
-    (exec (prog op) ⟨db, mem, 0, some (k, kind)⟩).2.mem = (exec (prog op) ⟨db, mem, 0, none⟩).2.mem := by
-  rcases rel_prog (fun b => faultR_stmt k kind b) (faultR_modifyMem k kind) op
-      ⟨db, mem, 0, some (k, kind)⟩ ⟨db, mem, 0, none⟩ ⟨rfl, rfl, rfl, rfl, rfl⟩ with ⟨e, _, he⟩ | ⟨h1, h2, h3, h4, _⟩
-  · rw [h] at he; cases he
-  · exact ⟨h1 ▸ h, h2, h3, h4⟩
+    (exec (prog op) ⟨db, mem, 0, some (k, kind)⟩).2.mem = (exec (prog op) ⟨db, mem, 0, none⟩).2.mem :=
+  exec_fault_not_hit db mem op k kind h
 
 /-- **Atomicity**: whatever statement a fault hits and whatever its kind, the committed file content afterwards is either
 the content before the call or the content the fault-free call commits. -/
@@ -68,7 +66,6 @@ theorem atomic (db : Db) (mem : Mem) (op : Op) (k : Nat) (kind : FaultKind) :
     rcases finish_ok_db db mem (some (k, kind)) _ hr with h | h
     · exact Or.inl h
     · exact Or.inr (h.trans h1)
-
 
 /-! ### a fault inside the body is always hit -/
 
